@@ -71,7 +71,7 @@ async def correspond(ctx):
 async def search(ctx):
     import corr_kernel as _ck
 
-    await _ck.run_scenarios(ctx, lambda ctx, run_: observer(ctx), ["detached_completion", "rerole", "nested_chain", "amended_consumer_rerun", "cycle_via_detached", "hold_recycle", "shrink_resources"])
+    await _ck.run_scenarios(ctx, lambda ctx, run_: observer(ctx), ["detached_completion", "rerole", "nested_chain", "amended_consumer_rerun", "cycle_via_detached", "hold_recycle", "shrink_resources", "duplicate_definition", "self_define_detached"])
     # the oracle runs as an observer of the correspondence sequences; a second, differently seeded
     # pass without the model gives it more states
     import contextlib
